@@ -66,9 +66,12 @@ Print Assumptions C15_cache_same_result.
 
 (** (c) The query log with the cache is a subsequence (hence a sub-multiset)
     of the log without it, never longer, and with the cache no (kind, node)
-    fetch is sent twice.  Proved when pass 1 reads the whole stream
-    ([reads_all]: no early stop of the instance tracker). *)
-Theorem C15_cache_log : forall c G O m,
+    fetch is sent twice.  PARTIAL: proved when pass 1 reads the whole stream
+    ([reads_all]: every mode except target classes with a positive
+    [instances_cap], where the instance tracker stops reading early and the
+    position of the stop is read off two differently ordered streams); the
+    check evaluates the statement on capped runs as well. *)
+Theorem C15_cache_log_partial : forall c G O m,
   ord_ok O -> dom c G -> mode_ok c G m -> reads_all c m ->
   let rc := run (with_cache true c) m G O in
   let rn := run (with_cache false c) m G O in
@@ -76,7 +79,7 @@ Theorem C15_cache_log : forall c G O m,
   List.length (log_of rc) <= List.length (log_of rn) /\
   NoDup (filter is_fetch (log_of rc)).
 Proof. exact C15c. Qed.
-Print Assumptions C15_cache_log.
+Print Assumptions C15_cache_log_partial.
 
 (** (d) The tie to the local extraction.  For an instance dictionary [I] whose
     keys are the targets: what the endpoint delivers to the feature pass is a
